@@ -220,6 +220,7 @@ Spawn(r, t) ==
               !.dl = IF parked THEN (IF SockT > 0 THEN t + SockT ELSE 0)
                      ELSE (IF WaitData > 0 THEN t + WaitData ELSE 0)]
 
+MutCode(v) == IF v = "mkd" THEN "257" ELSE "250"
 Out(rep, r, uu, us) == [rep |-> rep, r |-> Fin([r EXCEPT !.h = NoH]), uu |-> uu, us |-> us]
 
 \* Outcomes of a pending handler that performs no backend mutation and no listener start-up.
@@ -271,7 +272,8 @@ Outcomes(r, t) ==
          ELSE {}
     [] v = "abor" -> IF r.w.v = "" THEN same(<<"226">>, r) ELSE {}
     [] v \in MutVerbs ->
-         {Out(<<c>>, r, uused, used) : c \in Verdicts(r) \ {""}}
+         IF r.h.pc = "mutdone" THEN same(<<MutCode(v)>>, r)            \* the mutation is done: its success reply
+         ELSE {Out(<<c>>, r, uused, used) : c \in Verdicts(r) \ {""}}
     [] v \in PathVerbs ->
          UNION {IF c # "" THEN
                   \* a refused transfer command may or may not use up the restart offset
@@ -288,7 +290,7 @@ Outcomes(r, t) ==
 \* The backend mutation a pending handler is about to perform (if its guards pass)
 ExpMut(r) ==
   LET v == r.h.v IN
-  IF v \in MutVerbs /\ "" \in Verdicts(r)
+  IF v \in MutVerbs /\ r.h.pc = "" /\ "" \in Verdicts(r)
     THEN {[op |-> CASE v = "mkd" -> "mkdir" [] v = "rmd" -> "rmdir" [] v = "dele" -> "unlink" [] OTHER -> "rename",
            p |-> IF v = "rnto" THEN r.rnfr ELSE RPath(r),
            q |-> IF v = "rnto" THEN RPath(r) ELSE NoPath]}
@@ -298,7 +300,6 @@ MutOkT(t, m) == CASE m.op = "mkdir" -> MkdirOk(t, m.p) [] m.op = "rmdir" -> Rmdi
                   [] m.op = "unlink" -> UnlinkOk(t, m.p) [] OTHER -> RenameOk(t, m.p, m.q)
 MutDoT(t, m) == CASE m.op = "mkdir" -> MkdirDo(t, m.p) [] m.op = "rmdir" -> RmdirDo(t, m.p)
                   [] m.op = "unlink" -> UnlinkDo(t, m.p) [] OTHER -> RenameDo(t, m.p, m.q)
-MutCode(v) == IF v = "mkd" THEN "257" ELSE "250"
 
 -----------------------------------------------------------------------------
 (* Server-side events *)
@@ -401,7 +402,7 @@ FsMut(s, t, op, p, q, res) ==
           IF res = "fault" THEN Upd(s, [r1 EXCEPT !.h.failed = TRUE]) /\ UNCHANGED tree
           ELSE /\ (res = "ok") = MutOkT(tree, m)
                /\ IF res = "ok"
-                    THEN tree' = MutDoT(tree, m) /\ Upd(s, [r1 EXCEPT !.h = NoH, !.outq = @ \o <<MutCode(r.h.v)>>])
+                    THEN tree' = MutDoT(tree, m) /\ Upd(s, [r1 EXCEPT !.h.pc = "mutdone"])
                     ELSE UNCHANGED tree /\ Upd(s, [r1 EXCEPT !.h.failed = TRUE])
   /\ UNCHANGED <<uused, used, pool, table, srv>>
 
